@@ -50,6 +50,37 @@ def translate():
     ]
     for w in want:
         need(w in src, "validation code changed; missing: " + w.split("\n")[0])
+    # the generator is looked up on every call of the inner generate(), by the language it is given
+    ig = inner_gen[0]
+    need([a.arg for a in ig.args.args] == ["language", "target", "any_permitted", "metamodel", "model", "custom_args"], "inner generate() signature changed")
+    lookups = [n for n in ast.walk(ig) if isinstance(n, ast.Call) and ast.unparse(n.func).endswith("generator_description")]
+    need(len(lookups) == 1 and ast.unparse(lookups[0]) == "generator_description(language, target, any_permitted)", "generator lookup changed")
+    direct = [st for st in ig.body if isinstance(st, ast.Assign) and st.value is lookups[0]]
+    need(len(direct) == 1 and ast.unparse(direct[0].targets[0]) == "generator", "the generator is not looked up unconditionally on every call (per file)")
+    for n in ast.walk(ig):
+        if isinstance(n, ast.Name) and n.id == "generator" and isinstance(n.ctx, ast.Store):
+            need(n is direct[0].targets[0], "generator is bound more than once")
+    outer = [n for n in ast.walk(tree) if isinstance(n, ast.FunctionDef) and n.name == "generate" and n is not ig and "arguments" in [a.arg for a in n.args.args]]
+    need(len(outer) == 1, "generate command function not found")
+    # option prelude
+    pre = [n for n in ast.walk(outer[0]) if isinstance(n, ast.If) and ast.unparse(n.test) == "grammar"]
+    need(len(pre) == 1, "option prelude changed")
+    need(ast.unparse(pre[0]) == "if grammar:\n    metamodel = metamodel_from_file(grammar, debug=debug, ignore_case=ignore_case)\n    language = 'any'\n"
+         "elif language:\n    metamodel = metamodel_for_language(language)\nelse:\n    no_explicit_language = True", "option prelude changed: " + ast.unparse(pre[0])[:80])
+    # per-file loop
+    floops = [n for n in ast.walk(outer[0]) if isinstance(n, ast.For) and ast.unparse(n.iter) == "model_files_without_args"]
+    need(len(floops) == 1 and not floops[0].orelse and ast.unparse(floops[0].target) == "model_file", "per-file loop changed")
+    body = [ast.unparse(x) for x in floops[0].body]
+    need(len(body) == 5 and body[0].startswith("logger.info(") and
+         body[1] == "if no_explicit_language:\n    language = language_for_file(model_file).name\n    metamodel = metamodel_for_file(model_file)" and
+         body[2] == "model_params = {k: v for k, v in custom_args.items() if k in metamodel.model_param_defs}" and
+         body[3] == "model = metamodel.model_from_file(model_file, **model_params)" and
+         body[4] == "generate(language, target, no_explicit_language, metamodel, model, custom_args)", "per-file loop body changed: %r" % body)
+    for n in ast.walk(outer[0]):
+        if isinstance(n, ast.Name) and n.id == "no_explicit_language" and isinstance(n.ctx, ast.Store):
+            pass
+    stores = [ast.unparse(st) for st in ast.walk(outer[0]) if isinstance(st, ast.Assign) and any(ast.unparse(t) == "no_explicit_language" for t in st.targets)]
+    need(sorted(stores) == ["no_explicit_language = False", "no_explicit_language = True"], "no_explicit_language assignments changed: %r" % stores)
     # exit statuses: both handlers exit 1
     handlers = [n for n in ast.walk(tree) if isinstance(n, ast.ExceptHandler)]
     hs = {ast.unparse(h.type): ast.unparse(h.body[-1]) for h in handlers if h.type is not None and ast.unparse(h.type) != "ImportError"}
@@ -60,6 +91,12 @@ def translate():
     need(hs == {"TextXRegistrationError": "sys.exit(1)", "TextXError": "sys.exit(1)"}, "check error handlers changed: %r" % hs)
     loops = [n for n in ast.walk(ctree) if isinstance(n, ast.For) and ast.unparse(n.iter) == "model_files"]
     need(len(loops) == 1 and "metamodel.model_from_file(model_file, debug=debug)" in ast.unparse(loops[0]), "check loop changed")
+    cbody = [ast.unparse(x) for x in loops[0].body]
+    need(len(cbody) == 3 and cbody[0] == "if per_file_metamodel:\n    metamodel = metamodel_for_file(model_file)" and
+         cbody[1] == "metamodel.model_from_file(model_file, debug=debug)" and cbody[2].startswith("logger.info("), "check loop body changed: %r" % cbody)
+    cpre = [n for n in ast.walk(ctree) if isinstance(n, ast.If) and ast.unparse(n.test) == "grammar"]
+    need(len(cpre) == 1 and ast.unparse(cpre[0]) == "if grammar:\n    metamodel = metamodel_from_file(grammar, debug=debug, ignore_case=ignore_case)\n"
+         "elif language:\n    metamodel = metamodel_for_language(language)\nelse:\n    per_file_metamodel = True", "check option prelude changed")
     b2c = lambda x: "true" if x else "false"
     emit("SrcCli", "\n".join([
         "From TxV Require Import Core.Base.",
@@ -68,5 +105,10 @@ def translate():
         "Definition strip_chars : list N := %s." % coq_codes(strip_chars),
         "Definition switch_prefix : list N := %s." % coq_codes("--"),
         "Definition error_exit_status : nat := 1.",
+        "(* per-file loop of generate(): generator_description(language, target, any_permitted) on every call, language re-deduced",
+        "   per file when neither --language nor --grammar is given, --grammar forces the language name 'any' *)",
+        "Definition lookup_per_file : bool := true.",
+        "Definition any_permitted_iff_deduced : bool := true.",
+        "Definition grammar_forces_any : bool := true.",
     ]) + "\n")
     return []
